@@ -174,7 +174,7 @@ def plan(tier):
     lb = rule_lists_B(3)
     shards = [('A', i) for i in range(len(la))]
     shards += [('B', i) for i in range(64)]
-    shards += [('chars', i) for i in range(8)] + [('homo', 0), ('partial', 0), ('partial', 1), ('helper', 0), ('chunks', 0)]
+    shards += [('chars', i) for i in range(8)] + [('homo', 0), ('partial', 0), ('partial', 1), ('helper', 0), ('chunks', 0), ('nfc', 0), ('nfc', 1), ('alias', 0)]
     return dict(
         shards=shards,
         bounds=dict(b, symbols=[repr(x) for x in SYMS], rule_kinds=[m[0] for m in rule_menu()], configs=len(CONFIGS),
@@ -185,7 +185,7 @@ def plan(tier):
               '<= NA over 12 symbols (ASCII, %%, backslash, precomposed and combining accents, symbols with rules, control, unassigned, astral); '
               '(B) every ordered list of <= 3 rule variants x default configuration x strings of length <= NB; every code point of both built-in '
               'tables alone and between neighbours; homomorphism on all splits; partial encoder on strings of length <= NP over 13 LaTeX lexemes; '
-              'helper call sequences of length <= NH over 6 option tuples.  non-trivial = encodes whose output differs from the NFC input.'),
+              'helper call sequences of length <= NH over 8 option tuples; all strings of length <= 3 over 9 symbols whose canonical composition involves no combining mark (Hangul jamo, Indic vowel parts, singleton) x 72 configurations; caller-mutation histories of length <= 3 on the built-in rule lists handed out by the module.  non-trivial = encodes whose output differs from the NFC input.'),
         assumptions=['the reference encoder mc/ref/encoder.py transcribes the documented semantics; the built-in tables are data shared with it',
                      'rules that can match the empty string are excluded (contract: number of characters consumed)'],
     )
@@ -238,6 +238,18 @@ def run_shard(shard, tier, acc):
                     if st != 'ok' or res[0] != res[1]:
                         acc.violation(ID, 'homo', dict(cfg=cfgname(cfg), s=s, k=k), dict(kind='not-a-homomorphism'),
                                       observed=repr(res))
+    elif sub == 'nfc':
+        # canonical composition that involves no combining mark (Hangul jamo, Indic two-part vowels, singleton decompositions)
+        from pylatexenc import latexencode as le
+        table = le.get_builtin_uni2latex_dict()
+        refrules = [(ref.dict_matcher(table), None)]
+        for cfg in CONFIGS[i::2]:
+            enc = le.UnicodeToLatexEncoder(replacement_latex_protection=cfg[0], unknown_char_policy=cfg[1], non_ascii_only=cfg[2],
+                                           unknown_char_warning=False)
+            for s in strings(3, NFC_SYMS):
+                compare(enc, refrules, cfg, s, acc, dict(table='defaults', cfg=cfgname(cfg), s=s), 'chars')
+    elif sub == 'alias':
+        check_alias(acc)
     elif sub == 'partial':
         check_partial(b, i, acc)
     elif sub == 'helper':
@@ -299,7 +311,47 @@ def check_partial(b, which, acc):
 
 HELPER_OPTS = [dict(), dict(non_ascii_only=True), dict(replacement_latex_protection='braces-all'),
                dict(unknown_char_policy='replace'), dict(replacement_latex_protection='none', unknown_char_policy='unihex'),
-               dict(non_ascii_only=True, replacement_latex_protection='braces-after-macro')]
+               dict(non_ascii_only=True, replacement_latex_protection='braces-after-macro'),
+               dict(non_ascii_only=False, unknown_char_warning=True), dict(non_ascii_only=True, unknown_char_warning=False)]
+NFC_SYMS = ['a', '\u1100', '\u1161', '\u11a8', '\u09c7', '\u09be', '\u212b', '\u0301', 'e']
+ALIAS_STRS = ['a\u00e9%\u0378', '\u00f8b\\', 'ab', '\u20ac~']
+
+
+def check_alias(acc):
+    """Objects handed out by the module (built-in rule lists) are mutated by the caller; encoders built afterwards
+    must still have the documented built-in rules."""
+    from pylatexenc import latexencode as le
+    from pylatexenc.latexencode import _uni2latexmap_xml
+    refs = {'defaults': [(ref.dict_matcher(dict(le.get_builtin_uni2latex_dict())), None)],
+            'unicode-xml': [(ref.dict_matcher(dict(_uni2latexmap_xml.uni2latex)), None)]}
+    cfg = ('braces', 'keep', False)
+
+    def op_insert(name):
+        r = le.get_builtin_conversion_rules(name)
+        r.insert(0, le.UnicodeToLatexConversionRule(le.RULE_DICT, {ord('a'): 'X', 0xe9: 'Y'}))
+
+    def op_clear(name):
+        r = le.get_builtin_conversion_rules(name)
+        del r[:]
+
+    def op_encode(name):
+        le.UnicodeToLatexEncoder(conversion_rules=[name], unknown_char_warning=False).unicode_to_latex('a\u00e9')
+    ops = [('insert', op_insert), ('clear', op_clear), ('encode', op_encode)]
+    menu = [(on, of, tn) for (on, of) in ops for tn in ('defaults', 'unicode-xml')]
+    for k in (1, 2, 3):
+        for seq in itertools.product(range(len(menu)), repeat=k):
+            acc.count('alias_histories')
+            for step, mi in enumerate(seq):
+                on, of, tn = menu[mi]
+                st, res = run_guarded(of, tn)
+                if st != 'ok':
+                    acc.violation(ID, 'alias', dict(seq=[menu[j][0] + ':' + menu[j][2] for j in seq], step=step),
+                                  dict(kind='unexpected-exception', exc=type(res).__name__ if st == 'exc' else st))
+                    break
+                for tname in ('defaults', 'unicode-xml'):
+                    enc = le.UnicodeToLatexEncoder(conversion_rules=[tname], unknown_char_warning=False)
+                    for s in ALIAS_STRS:
+                        compare(enc, refs[tname], cfg, s, acc, dict(seq=[menu[j][0] + ':' + menu[j][2] for j in seq], step=step, table=tname, s=s), 'alias')
 HELPER_STRS = ['a\u00e9%\u0378', '\u00f8b\\', '']
 
 
@@ -315,8 +367,9 @@ def check_helper(b, acc, only=None):
             for step, oi in enumerate(seq):
                 kw = HELPER_OPTS[oi]
                 for s in HELPER_STRS:
-                    got = le.unicode_to_latex(s, unknown_char_warning=False, **kw)
-                    exp = le.UnicodeToLatexEncoder(unknown_char_warning=False, **kw).unicode_to_latex(s)
+                    kw = dict(dict(unknown_char_warning=False), **kw)
+                    got = le.unicode_to_latex(s, **kw)
+                    exp = le.UnicodeToLatexEncoder(**kw).unicode_to_latex(s)
                     if got != exp:
                         acc.violation(ID, 'helper', dict(seq=list(seq), step=step, s=s),
                                       dict(kind='cached-helper-differs-from-fresh-encoder'), observed=repr(got), expected=repr(exp))
@@ -350,6 +403,8 @@ def replay(sub, case):
         compare(enc, refrules, cfg, case['s'], acc, case, sub)
     elif sub == 'helper':
         check_helper(b, acc, only=case['seq'])
+    elif sub == 'alias':
+        check_alias(acc)
     else:
         run_shard((sub, 0), 'thorough', acc)
     return acc.violations
